@@ -4,6 +4,7 @@ package props
 
 import (
 	"fmt"
+	"math"
 	"math/rand/v2"
 
 	"github.com/creachadair/mds/mdiff"
@@ -21,10 +22,10 @@ func init() {
 				Flavours: []string{"plain", "cover"},
 				Blocks:   16,
 				Procs:    16,
-				Rule: "case = (Left, Right, n). Exhaustive: every pair of line sequences over alphabet 2 x length <= 8, alphabet 3 x length <= 5 and alphabet 4 x length <= 4 (alphabet 2 x length <= 9, alphabet 3 x length <= 6 in thorough), each with every context size n in 0..5 (so n exceeds every gap for short inputs); random repetitive inputs of up to 60 lines with n in 0..8; the F4 witnesses as regression cases. " +
+				Rule: "case = (Left, Right, n). Exhaustive: every pair of line sequences over alphabet 2 x length <= 8, alphabet 3 x length <= 5 and alphabet 4 x length <= 4 (alphabet 2 x length <= 9, alphabet 3 x length <= 6 in thorough), each with every context size n in 0..5 (so n exceeds every gap for short inputs); random repetitive inputs of up to 60 lines with n in 0..8; context sizes 1000, 2^31, 2^40, MaxInt-1 and MaxInt; inputs that are windows of one shared backing array; the F4 witnesses as regression cases. " +
 					"At each of the three stages every chunk's edits are interpreted against Left[LStart,LEnd) and Right[RStart,REnd); leading/trailing context <= n; after New and after Unify chunks ascending and disjoint (after Unify also not adjacent) and replacing each left range by the chunk's output yields Right; Edits deep-equals its value after New and is itself a correct script; Left/Right are not modified. " +
 					"distinct = enumerated (Left, Right, n) triples, random ones by hash; non-trivial = New produced >= 2 chunks and n >= 1 (context of neighbouring chunks can interact)",
-				Required:     []string{"triples", "multi_chunk_triples", "merged_by_unify", "n_exceeds_gap", "f4_witnesses"},
+				Required:     []string{"triples", "multi_chunk_triples", "merged_by_unify", "n_exceeds_gap", "f4_witnesses", "aliased_input_triples", "huge_n_triples"},
 				Exhaustive:   true,
 				Assumptions:  []string{"chunk interpreter written from the Chunk field documentation (1-based half-open ranges)"},
 				CoverPkgs:    []string{"github.com/creachadair/mds/mdiff"},
@@ -223,6 +224,39 @@ func runC13(c *fw.Ctx) {
 			}
 		}
 		idx += cnt
+	}
+	// extreme context sizes and inputs that share storage
+	if c.Begin(idx + 800000 + c.Block) {
+		var n64 int64
+		for total := 1; total <= 8; total++ {
+			buf := make([]string, total)
+			for code := c.Block; code < 1<<uint(total); code += c.NBlocks {
+				for i := range buf {
+					buf[i] = c13letters[code>>uint(i)&1]
+				}
+				for a := 0; a <= total; a++ {
+					for b := a; b <= total; b++ {
+						for _, pr := range [][2][]string{{buf[:b], buf[:a]}, {buf[:a], buf[:b]}, {buf[a:b], buf[:b]}, {buf[a:], buf[:b]}} {
+							c13check(c, pr[0], pr[1], (a+b)%4)
+							n64++
+						}
+					}
+				}
+			}
+		}
+		c.Add("aliased_input_triples", n64)
+		for _, n := range []int{math.MaxInt, math.MaxInt - 1, 1 << 40, 1 << 31, 1000} {
+			for li := 0; li < 40; li++ {
+				left := linesOf(seqOfN(li*7+c.Block, 3))
+				right := linesOf(seqOfN(li*13+3*c.Block+1, 3))
+				c13check(c, left, right, n)
+				n64++
+				c.Add("huge_n_triples", 1)
+			}
+		}
+		c.Evals(n64)
+		c.Add("triples", n64)
+		c.SeenEnum(n64)
 	}
 	nr := c.Pick(4000, 60000)
 	for k := 0; k < nr; k++ {
